@@ -318,8 +318,10 @@ def synth(total, nseg, rng, multi=False, unknown=False, entropy=False):
     return iwa.build(segs)
 
 
-def synth_exact(total, rng, nseg=1):
-    """A plaintext of *exactly* `total` bytes (the 64 KiB rule bites at exact multiples)."""
+def synth_exact(total, rng, nseg=1, tail_zero=False):
+    """A plaintext of *exactly* `total` bytes (the 64 KiB rule bites at exact multiples).  tail_zero: the last byte is 00 (an
+    empty string field), so that a last block of one byte is 00 - which, taken for a compressed chunk, is valid raw snappy for
+    'nothing'."""
     from numbers_parser.generated import TSTArchives_pb2 as TST
     from numbers_parser.generated.mapping import NAME_ID_MAP
     from numbers_parser.generated.TSPArchiveMessages_pb2 import ArchiveInfo
@@ -343,7 +345,7 @@ def synth_exact(total, rng, nseg=1):
             mi.length = len(m)
             segs.append((ai, [m]))
         return iwa.build(segs)
-    for extra in range(0, 6):
+    for extra in range(1 if tail_zero else 0, 7):
         n = max(0, total - 64)
         for _ in range(40):
             p = build(n, extra)
@@ -614,17 +616,20 @@ def run_synthetic(spec, rec):
     # exact sizes around the 64 KiB multiples (only stream 0..2: one multiple each)
     if spec["stream"] < 3:
         k = spec["stream"] + 1
-        for total in (65536 * k - 1, 65536 * k, 65536 * k + 1):
+        for total, tz_ in [(65536 * k - 1, False), (65536 * k, False), (65536 * k + 1, False), (65536 * k + 1, True), (65536 * k + 3, True)]:
             for nseg in (1, 3):
-                p = synth_exact(total, rng, nseg)
+                p = synth_exact(total, rng, nseg, tail_zero=tz_)
                 if p is None:
                     rec.build_failure("synth_exact")
                     continue
+                if tz_:
+                    assert p[-1] == 0
+                    rec.count("synthetic_last_block_is_valid_snappy")
                 b, _ = iwa.frame(p)
                 rec.count("synthetic_archives")
                 if total % 65536 == 0:
                     rec.count("synthetic_exact_64k_multiple")
-                check_stream(b, rec, f"synthetic-exact:{total}/{nseg}", {"part": "synthetic-exact", "total": total, "nseg": nseg}, rechunk=3, rng=rng)
+                check_stream(b, rec, f"synthetic-exact:{total}/{nseg}", {"part": "synthetic-exact", "total": total, "nseg": nseg, "tail_zero": tz_}, rechunk=3, rng=rng)
     rec.sample({"synthetic": [list(c) for c in mine[:5]]})
 
 
@@ -673,7 +678,7 @@ def replay(case, rec):
         b, _ = iwa.frame(p)
         check_stream(b, rec, "replay:synthetic-merge", case, rechunk=2, rng=rng)
     elif part == "synthetic-exact":
-        p = synth_exact(case["total"], rng, case["nseg"])
+        p = synth_exact(case["total"], rng, case["nseg"], tail_zero=case.get("tail_zero", False))
         b, _ = iwa.frame(p)
         check_stream(b, rec, "replay:synthetic-exact", case, rechunk=3, rng=rng)
     elif part == "synthetic":
